@@ -1038,6 +1038,68 @@ func c11AppFace(c *core.Ctx) {
 		}
 	})
 	c.Decide(okUp, "R11.2", "whole-block-handed-up", c.Pos(mk), "onPkt receives a reader over the whole buffer", "the engine is not given a reader over the whole block buffer")
+
+	// ---- R11.12 "each no larger than the maximum packet size … delivered": a size limit of
+	// the receive loop refuses only blocks that are LARGER than the maximum packet size. Every
+	// comparison of the announced length (alone, or plus the octets of the header) with a
+	// constant K refuses e > T with T = K for `>` / `<=` and T = K-1 for `>=` / `<`; e never
+	// exceeds the size of the block, so a block of at most the maximum is certainly kept
+	// iff T ≥ maximum. (That a limit exists at all is C04's rule.)
+	maxPkt := int64(8800)
+	if dp := p.Pkgs[core.ModPath+"/fw/defn"]; dp != nil {
+		if o, okO := dp.Types.Scope().Lookup("MaxNDNPacketSize").(*types.Const); okO {
+			if v, okV := constInt64(o); okV {
+				maxPkt = v
+			}
+		}
+	}
+	var derived func(v ssa.Value, d int) bool
+	derived = func(v ssa.Value, d int) bool {
+		if d > 5 {
+			return false
+		}
+		v = core.StripConv(v)
+		if v == l {
+			return true
+		}
+		if b, isB := v.(*ssa.BinOp); isB && b.Op == token.ADD {
+			return derived(b.X, d+1) || derived(b.Y, d+1)
+		}
+		return false
+	}
+	nLim, tight := 0, ""
+	core.InstrsDeep(fn, func(in ssa.Instruction) {
+		iff, isIf := in.(*ssa.If)
+		if !isIf {
+			return
+		}
+		var conds []ssa.Value
+		conds = append(conds, iff.Cond)
+		for _, cond := range conds {
+			op, x, y, okC := core.Cmp(cond)
+			if !okC || !derived(x, 0) {
+				continue
+			}
+			k, isK := core.ConstInt(y)
+			if !isK {
+				continue
+			}
+			t := k
+			switch op {
+			case token.GTR, token.LEQ:
+			case token.GEQ, token.LSS:
+				t = k - 1
+			default:
+				continue
+			}
+			nLim++
+			if t < maxPkt {
+				tight = fmt.Sprintf("%s (refuses sizes above %d)", c.Pos(iff), t)
+			}
+		}
+	})
+	c.Decide(tight == "", "R11.12", "size-limit-keeps-a-maximum-size-block", c.Pos(mk), fmt.Sprintf("%d size limit(s) on the announced length, none refuses a block of %d octets or fewer", nLim, maxPkt), "StreamFace.Run refuses a block that is not larger than the maximum packet size at "+tight+": a block of exactly the maximum size stops the face, and it and everything behind it on the stream is lost")
+	c.Floor("R11.12", "size limits on the announced length in StreamFace.Run", nLim, 1)
 }
 
 // unwrapBytes strips the type changes between []byte and its named forms.
